@@ -34,7 +34,8 @@ BOUNDS = {'quick': "programs of 1..3 outer steps with one repeated sub-circuit (
                    "repeated top-level circuit; library circuits d in {2,3}, cycles 0..5 for the concatenation clause",
           'thorough': "counts 1..4, inner programs <= 4 steps, nesting depth 3, 6000 sampled shapes; library circuits d<=4, cycles 0..7"}
 OUTSIDE = ["repetition counts < 1", "DynamicRepetitionStrategy callables", "IEEE rounding off the dyadic grid",
-           "copy membership of an unrolled operation is read from the links it carries (walk to the first MultiRelationLink)"]
+           "copy membership of an unrolled operation is read from the links it carries (walk to the first MultiRelationLink)",
+           "chain clause for blocks with several relation leaves *and* a JOINED_END relation inside (the listing is not in copy order there; counts, reset and idempotence are still asserted)"]
 ASSUMPTIONS = ["memo caches start empty; history = build -> read block duration -> apply_modifiers -> list -> read times -> apply_modifiers again",
                "hash(Sym) constant / == decided by the solver"]
 REQUIRED_REACH = ['C06.count', 'C06.untouched', 'C06.reset', 'C06.idempotent.listing', 'C06.idempotent.schedule', 'C06.chain', 'C06.nT', 'C06.library.concat']
@@ -259,13 +260,28 @@ def run(ctx, params):
             depth = cm.relation_depths(steps)
             return [i for i, st in enumerate(steps) if st.rel is None and not cm.implicit_predecessors(steps, i, depth)]
 
-        def leaf_steps(steps):
+        def leaf_steps_all(steps):
+            """Relation leaves of a block, one list per way of resolving ties of the implicit placement (an unrelated step with several
+            channel-sharing predecessors of equal depth refers to one of them; the statement leaves open which)."""
+            import itertools
             depth = cm.relation_depths(steps)
-            referred = set()
+            referred, ties = set(), []
             for i, st in enumerate(steps):
-                for j in ([st.rel[1]] if st.rel is not None else cm.implicit_predecessors(steps, i, depth)):
-                    referred.add(j)
-            return [i for i in range(len(steps)) if i not in referred]
+                preds = [st.rel[1]] if st.rel is not None else cm.implicit_predecessors(steps, i, depth)
+                if len(preds) > 1:
+                    ties.append(preds)
+                else:
+                    referred.update(preds)
+            out = []
+            for pick in itertools.islice(itertools.product(*ties), 32):
+                r = referred | set(pick)
+                ls_ = [i for i in range(len(steps)) if i not in r]
+                if ls_ not in out:
+                    out.append(ls_)
+            return out
+
+        def leaf_steps(steps):
+            return leaf_steps_all(steps)[0]
 
         def starts_of(step, ks):
             """start terms of the first operations of a step (a sub-circuit starts with the first steps of its copy 0)"""
@@ -281,7 +297,14 @@ def run(ctx, params):
             if not leaves_under(block):
                 return
             ls, fs = leaf_steps(steps), first_steps(steps)
-            for k in range(block.rep):
+
+            def has_e(sts):
+                return any((st.rel is not None and st.rel[0] == 'E') or (st.is_sub and has_e(st.children)) for st in sts)
+            # With JOINED_END inside a block of several relation leaves an operation may end before it starts relative to its reference, the
+            # latest dangling leaf of "what precedes" can then belong to an older copy, the new copy hangs below it and the breadth-first
+            # listing is no longer in copy order: the copies cannot be told apart from the listing, the clause is not asserted (OUTSIDE)
+            unordered = has_e(steps) and len(ls) > 1
+            for k in range(block.rep if not unordered else 0):
                 ks = list(ks_outer) + [k]
                 if k >= 1:
                     prev_end = cm.smax([end_of(steps[i], list(ks_outer) + [k - 1]) for i in ls])
@@ -295,9 +318,10 @@ def run(ctx, params):
                                 first = cm.smin(starts_of(steps[i], list(ks_outer) + [k - 1]))
                                 early.append(cm.smin([op_at(lf, ix).start_time for lf, ix in idxs]) < first)
                     early_inner = s_or(*early)
+                    alternatives = [cm.smax([end_of(steps[i], list(ks_outer) + [k - 1]) for i in alt]) for alt in leaf_steps_all(steps)[1:]]
                     for i in fs:
                         for st_ in starts_of(steps[i], ks):
-                            ctx.check('C06.chain', st_ == prev_end, {'block': block.label(), 'copy': k, 'outer_copies': list(ks_outer), 'first_step': steps[i].label(),
+                            ctx.check('C06.chain', s_or(st_ == prev_end, *[st_ == a for a in alternatives]), {'block': block.label(), 'copy': k, 'outer_copies': list(ks_outer), 'first_step': steps[i].label(),
                                                                       'start': st_, 'expected_max_leaf_end_of_previous_copy': prev_end, 'leaf_steps': [steps[i2].label() for i2 in ls],
                                                                       'early_inner_op_in_nested_leaf_block': early_inner})
                 for c_ in steps:
